@@ -112,11 +112,16 @@ pub fn gen_scenario(rng: &mut Rng) -> Case {
     let hz = *rng.pick(&[0u8, 1, 1, 1, 20]);
     let nb = rng.range(2, 4) as usize;
     let mut ops = vec![MOp::MpPrintln("L0".into()), MOp::MpPrintln("L1".into())];
+    // a third of the scenarios have a status line: a `{msg}`-only bar, which renders nothing while its message is empty
+    let status: Option<usize> = if rng.chance(1, 3) { Some(rng.below(nb as u64) as usize) } else { None };
+    // (its messages are plain and not blank: a line made of colour codes or a lone line break has no text the frame oracles could find)
+    let plain = |rng: &mut Rng| -> String { (0..rng.range(1, w as u64)).map(|_| (b'a' + rng.below(26) as u8) as char).collect() };
     for k in 0..nb {
-        let fin = match rng.below(4) { 0 => Fin::Clear, 1 => Fin::Msg(short(rng, w, true)), _ => Fin::Leave };
-        ops.push(MOp::Add { loc: 0, arg: 0, len: Some(10), tpl: *rng.pick(&[1usize, 3, 3]), prefix: format!("{}", (b'A' + k as u8) as char), fin });
+        let fin = match rng.below(4) { 0 => Fin::Clear, 1 => Fin::Msg(if status == Some(k) { plain(rng) } else { short(rng, w, true) }), _ => Fin::Leave };
+        ops.push(MOp::Add { loc: 0, arg: 0, len: Some(10), tpl: if status == Some(k) { 0 } else { *rng.pick(&[1usize, 3, 3]) }, prefix: format!("{}", (b'A' + k as u8) as char), fin });
     }
-    for k in 0..nb { if rng.chance(4, 5) { ops.push(MOp::Bar(k, BOp::Tick)); } if rng.chance(1, 3) { ops.push(MOp::Bar(k, BOp::Msg(short(rng, w, true)))); } }
+    if let Some(j) = status { let m = plain(rng); ops.push(MOp::Bar(j, BOp::Msg(m))); }
+    for k in 0..nb { if rng.chance(4, 5) { ops.push(MOp::Bar(k, BOp::Tick)); } if rng.chance(1, 3) { let m = if status == Some(k) { plain(rng) } else { short(rng, w, true) }; ops.push(MOp::Bar(k, BOp::Msg(m))); } }
     if hz != 0 && rng.chance(3, 4) { let k = rng.below(nb as u64) as usize; for _ in 0..rng.range(20, 26) { ops.push(MOp::Bar(k, BOp::Tick)); } }
     let mut alive = vec![true; nb]; let mut member = vec![true; nb];
     let nfin = rng.range(1, nb as u64) as usize;
@@ -125,10 +130,13 @@ pub fn gen_scenario(rng: &mut Rng) -> Case {
     for _ in 0..rounds {
         // A: head bars finish (visibly or not), some get a taller message afterwards
         for k in 0..nfin { if alive[k] && rng.chance(3, 4) {
-            ops.push(MOp::Bar(k, BOp::Finish(match rng.below(5) { 0 => Fin::Clear, 1 => Fin::Msg(short(rng, 2 * w, true)), 2 => Fin::Abandon, _ => Fin::Leave })));
-            if rng.chance(1, 3) { ops.push(MOp::Bar(k, BOp::Msg(short(rng, 2 * w, true)))); } } }
+            ops.push(MOp::Bar(k, BOp::Finish(match rng.below(5) { 0 => Fin::Clear, 1 => Fin::Msg(if status == Some(k) { plain(rng) } else { short(rng, 2 * w, true) }), 2 => Fin::Abandon, _ => Fin::Leave })));
+            if rng.chance(1, 3) { let m = if status == Some(k) { plain(rng) } else { short(rng, 2 * w, true) }; ops.push(MOp::Bar(k, BOp::Msg(m))); } } }
         // B: the painted frame is invalidated, or not
         match rng.below(5) { 0 | 1 => ops.push(MOp::MpClear), 2 => { let k = rng.below(nb as u64) as usize; if alive[k] && member[k] { member[k] = false; ops.push(MOp::Remove(k)); } } 3 => ops.push(MOp::MpSuspend(vec![])), _ => {} }
+        // B': the status line is emptied (an update the limiter may skip: the stored rendering is empty, the screen still shows the
+        // old text) and removed right away
+        if let Some(j) = status { if alive[j] && member[j] && rng.chance(1, 2) { ops.push(MOp::Bar(j, BOp::Msg(String::new()))); if rng.chance(3, 4) { member[j] = false; ops.push(MOp::Remove(j)); } } }
         // C: an ordinary redraw request that the limiter may skip, or time passes
         match rng.below(4) { 0 | 1 => { let j = rng.below(nb as u64) as usize; if alive[j] { ops.push(MOp::Bar(j, BOp::Tick)); } } 2 => ops.push(MOp::Adv(*rng.pick(&[1_000_000u64, 1_000_000_000]))), _ => {} }
         // D: finished bars are dropped, in some order
